@@ -241,7 +241,7 @@ Proof.
     destruct (Nat.eqb_spec u (nthr st)) as [->|]; [|reflexivity]. cbn. symmetry. apply P. lia. }
   destruct c; cbn [begin_cmd] in H;
     try (destr_all H; inversion H; subst; clear H; first [fR | split; [reflexivity|split; auto]]; fail).
-  - destruct (negb (is_main t) || wused st w); [inversion H; subst; split; [reflexivity|split; auto]|].
+  - destruct (negb (is_main t) || wused st w || (1000000 <=? w) || (w <? 0)); [inversion H; subst; split; [reflexivity|split; auto]|].
     destruct (wh_add st (HPlain w)) as [[st1 wi]|] eqn:E; inversion H; subst; clear H; [|split; [reflexivity|split; auto]].
     apply wh_add_R in E. destruct E as [E1 [E2 [E3 E4]]]. apply frameR_eq; cbn; auto. intros u Hu. rewrite E4. reflexivity.
   - destruct (negb (is_main t)); [inversion H; subst; split; [reflexivity|split; auto]|].
